@@ -637,6 +637,72 @@ func runC19Exp(env *run.Env, e *c19Exp) c19Outcome {
 		<-done
 		tl.add(s.snapshot(), "holder-done")
 		tl.checkNewDirs("holder-done")
+	case "stale-lock-handle":
+		// B has opened the lock file but not yet asked for the lock when
+		// holder A finishes; then C arrives while B works.
+		park := filepath.Join(s.dir, "park-netspoc")
+		pause := filepath.Join(s.dir, "pause-flock")
+		os.WriteFile(park, nil, 0644)
+		startNP := func(extra ...string) (*exec.Cmd, chan error) {
+			cmd := exec.Command(filepath.Join(s.dir, "bin/sudo-newpolicy"))
+			cmd.Dir = s.dir
+			cmd.Env = s.env(extra...)
+			cmd.SysProcAttr = &syscall.SysProcAttr{Setpgid: true}
+			cmd.Start()
+			done := make(chan error, 1)
+			go func() { done <- cmd.Wait() }()
+			return cmd, done
+		}
+		_, dA := startNP()
+		if !waitFile(park+".at", 60*time.Second, dA) {
+			os.Remove(park)
+			<-dA
+			out.Key = ""
+			out.What = "child-not-reached"
+			return out
+		}
+		os.WriteFile(pause, nil, 0644)
+		s.counter++
+		_, dB := startNP("BASH_ENV="+s.dir+"/bin/inject.sh", "VERIF_TRACE="+filepath.Join(s.dir, fmt.Sprintf("trace.%d", s.counter)),
+			"VERIF_PAUSE_CMD=flock", "VERIF_PAUSE_FILE="+pause)
+		if !waitFile(pause+".at", 60*time.Second, dB) {
+			os.Remove(park)
+			os.Remove(pause)
+			<-dA
+			return fail("harness", "B did not reach flock")
+		}
+		// A finishes.
+		os.Remove(park + ".at")
+		os.Remove(park)
+		<-dA
+		tl.add(s.snapshot(), "holder-done")
+		// New work for B, which is to be held in the compiler.
+		s.commit(false, nil)
+		os.WriteFile(park, nil, 0644)
+		os.Remove(pause)
+		if !waitFile(park+".at", 20*time.Second, dB) {
+			// B was refused or found nothing to do: no overlap possible.
+			os.Remove(park)
+			tl.add(s.snapshot(), "second-done")
+			break
+		}
+		// C arrives while B compiles: it must be refused.
+		cC, dC := startNP()
+		select {
+		case <-dC:
+			if x := cC.ProcessState.ExitCode(); x != 1 {
+				tl.problems = append(tl.problems, fmt.Sprintf("third-run-exit=%d-while-second-compiles", x))
+			}
+		case <-time.After(15 * time.Second):
+			tl.problems = append(tl.problems, "third-run-works-while-second-compiles")
+		}
+		os.Remove(park)
+		<-dB
+		select {
+		case <-dC:
+		case <-time.After(60 * time.Second):
+		}
+		tl.add(s.snapshot(), "all-done")
 	case "concurrent":
 		park := filepath.Join(s.dir, "park-netspoc")
 		os.WriteFile(park, nil, 0644)
@@ -820,6 +886,7 @@ func checkC19(tier, replay string) int {
 		for _, bad := range []bool{false, true} {
 			exps = append(exps, &c19Exp{Hist: t.h.Name, Kind: "commit-while-compiling", Bad: bad, template: t.s})
 		}
+		exps = append(exps, &c19Exp{Hist: t.h.Name, Kind: "stale-lock-handle", template: t.s})
 		for n := 1; n <= 3; n++ {
 			if tier == "quick" && !quickHists[t.h.Name] {
 				continue
